@@ -289,6 +289,7 @@ func monoNanos() int64 { return int64(time.Since(engineStart)) }
 // flight then, the hang is confirmed as history-dependent. stillInFlight reports whether the case is still running.
 func ConfirmHang(prop string, sub *Sub, caseJSON string, limit time.Duration) (confirmed bool, how string) {
 	start := monoNanos()
+	childHung := false
 	tier, stillInFlight := runTier, StillInFlight
 	if exe, err := os.Executable(); err == nil && os.Getenv("VERIF_CONFIRM") == "" {
 		dir := filepath.Join(os.TempDir(), fmt.Sprintf("verif-hang-%d", os.Getpid()))
@@ -303,21 +304,22 @@ func ConfirmHang(prop string, sub *Sub, caseJSON string, limit time.Duration) (c
 		timedOut := cctx.Err() != nil
 		cancel()
 		_ = err
+		childHung = timedOut
+	}
+	_ = start
+	// stage 2, always: the case in this process gets twice the limit more, counted in one-second sleeps that this
+	// goroutine actually completed (a paused machine completes none; a clock that jumped ends at most one early)
+	for i := 0; i < int(2*limit/time.Second); i++ {
 		if !stillInFlight() {
 			return false, ""
 		}
-		if timedOut {
-			return true, "the case alone, replayed in a fresh process, does not come back either"
-		}
+		time.Sleep(time.Second)
 	}
 	if !stillInFlight() {
 		return false, ""
 	}
-	for monoNanos()-start < int64(2*limit) {
-		time.Sleep(time.Second)
-		if !stillInFlight() {
-			return false, ""
-		}
+	if childHung {
+		return true, "the case alone, replayed in a fresh process, does not come back either, and in this run it is still in flight after three times the limit"
 	}
 	return true, "the case alone returns in a fresh process, but in this run it has not come back after three times the limit: it depends on the calls that preceded it"
 }
@@ -332,6 +334,14 @@ var StillInFlight = func() bool { return true }
 // HangHandler is called (from the watchdog goroutine) when a case does not come back. The default
 // reports a harness error and exits 2; a check whose property includes termination (C09) replaces it.
 var HangHandler = func(sub *Sub, caseJSON string, limit time.Duration) {
+	// (slow is not hung: the case gets the limit once more, counted in completed one-second sleeps)
+	for i := 0; i < int(limit/time.Second); i++ {
+		if !StillInFlight() {
+			fmt.Fprintf(os.Stderr, "note: case %s of sub-check %s took longer than %s but came back (slow run, not a hang)\n", caseJSON, sub.Name, limit)
+			return
+		}
+		time.Sleep(time.Second)
+	}
 	fmt.Fprintf(os.Stderr, "harness error: case %s of sub-check %s did not finish within %s (the code under test or the harness hangs)\n", caseJSON, sub.Name, limit)
 	os.Exit(2)
 }
@@ -850,8 +860,10 @@ func runSub(sub *Sub, tier string, deadline time.Time) (subStats, []any, map[str
 	// Watchdog: a case that does not come back is a hang of the code under test (or of the harness).
 	// It cannot be recovered from inside the process; the run ends there with a report (HangHandler).
 	type inflight struct {
-		since atomic.Int64 // unix nanos when the worker picked up its current case; 0 = idle
+		since atomic.Int64 // monotonic stamp taken when the worker picked up its current case (or last reported progress); 0 = idle
 		cas   atomic.Value
+		seen  int64 // watchdog only: the stamp seen at the previous tick
+		ticks int   // watchdog only: consecutive ticks with the same stamp
 	}
 	fl := make([]*inflight, workers)
 	stopWatch := make(chan struct{})
@@ -869,7 +881,20 @@ func runSub(sub *Sub, tier string, deadline time.Time) (subStats, []any, map[str
 				return
 			case <-t.C:
 				for _, f := range fl {
-					if s := f.since.Load(); s != 0 && time.Duration(monoNanos()-s) > limit {
+					// the age of a case is counted in ticks of this loop during which the same case was seen in flight
+					// (2 s each), not read off a clock: a process or machine that was paused - a snapshot of the sandbox,
+					// a suspended VM - resumes with a clock that has jumped, but with at most one tick delivered
+					s := f.since.Load()
+					switch {
+					case s == 0:
+						f.seen, f.ticks = 0, 0
+					case s != f.seen:
+						f.seen, f.ticks = s, 0
+					default:
+						f.ticks++
+					}
+					if s != 0 && time.Duration(f.ticks)*2*time.Second > limit {
+						f.ticks = 0
 						cb, _ := json.Marshal(f.cas.Load())
 						f, s := f, s
 						StillInFlight = func() bool { return f.since.Load() == s }
